@@ -176,6 +176,22 @@ fn reachable_site() -> Site {
                 Ok(Ok(())) if out.get_ref()[..] == id.to_le_bytes()[..] => {},
                 other => { acc.violate(i, "C13|reachable-value-not-written-back".into(), format!("{v:?} (from MAL skin id {id:#010x}) is written as {} ({other:?})", crate::report::hex(out.get_ref())), replay); return; },
             }
+            // a mod is a mod whatever its id spells: it is no built-in car and not the unknown car - for `==`, for a hash
+            // set and for the containers that hold vehicles
+            {
+                use std::collections::HashSet;
+                let mut others: Vec<Vehicle> = BUILTIN_CARS.iter().filter_map(|n| { let b = n.as_bytes(); Vehicle::read_le(&mut Cursor::new(&[b[0], b[1], b[2], 0][..])).ok() }).collect();
+                others.push(Vehicle::Unknown);
+                for b in &others {
+                    let eq = guard(|| v == *b);
+                    let in_set = guard(|| { let mut s: HashSet<Vehicle> = HashSet::new(); let _ = s.insert(b.clone()); s.contains(&v) });
+                    let in_mal = guard(|| mal.contains(b));
+                    if eq != Ok(false) || in_set != Ok(false) || in_mal != Ok(false) {
+                        acc.violate(i, "C13|mod-confused-with-built-in".into(), format!("{v:?} (from MAL skin id {id:#010x}) and {b:?}: == gives {eq:?}, a hash set holding the latter contains the former: {in_set:?}, the MAL contains the latter: {in_mal:?}"), replay);
+                        return;
+                    }
+                }
+            }
             // inside a packet that carries a car name
             let slc = insim::Packet::Slc(insim::insim::Slc { cname: v.clone(), ..Default::default() });
             match guard(|| codec.encode(&slc)) {
